@@ -91,6 +91,8 @@ def printVals (o : Opt) (pff : Option (List Bytes)) (indent : Nat) : List Val â†
 def printOpt (pff : Option (List Bytes)) (indent : Nat) : Opt â†’ Bytes
   | .mk info flags subs vals comment =>
     let o : Opt := .mk info flags subs vals comment
+    -- a pointer value has no text of its own: without a print callback nothing is written
+    if info.ty == .ptr && !info.printCb then [] else
     (match comment with
      | some c => if flags.comments then indentBytes indent ++ printComment c else []
      | none => []) ++
